@@ -73,6 +73,40 @@ def run_one(prop: str, edit: dict, base_src: Path) -> dict:
         shutil.rmtree(td, ignore_errors=True)
 
 
+def seed_edits(prop: str) -> list[dict]:
+    """Archived seeded changes (/verif/seeded/<prop>-<k>/patch.diff, written by independent authors who never saw /verif)
+    that this property's check is recorded to catch."""
+    import json
+    out = []
+    for d in sorted((VERIF / "seeded").glob("*")):
+        meta = d / "meta.json"
+        if not meta.exists():
+            continue
+        mj = json.loads(meta.read_text())
+        if prop in mj.get("checks_fired", {}) and mj.get("confirmed"):
+            out.append({"id": f"seed:{d.name}", "kind": "seed", "patch": str(d / "patch.diff"), "rule": prop + "-R"})
+    return out
+
+
+def run_seed(prop: str, edit: dict, base_src: Path) -> dict:
+    td = Path(tempfile.mkdtemp(prefix=f"sa_selftest_{prop}_"))
+    try:
+        dst = td / "src" / "irispie"
+        shutil.copytree(base_src, dst, ignore=shutil.ignore_patterns("__pycache__", "*.pyc", "executables"))
+        a = subprocess.run(["patch", "-p1", "-s", "--no-backup-if-mismatch", "-d", str(td), "-i", edit["patch"]], capture_output=True, text=True)
+        if a.returncode != 0:
+            return {"id": edit["id"], "kind": "seed", "status": "skipped", "why": "patch does not apply to the current tree"}
+        env = dict(os.environ, IRISPIE_VERIF_SRC=str(dst))
+        r = subprocess.run([PY, "-m", "sa.check", prop, "--tier", "quick", "--no-evidence"], cwd=str(VERIF), env=env,
+                           capture_output=True, text=True, timeout=300)
+        viol = [l for l in r.stdout.splitlines() if " — rule " in l]
+        ok = r.returncode == 1 and bool(viol)
+        return {"id": edit["id"], "kind": "mutant", "status": "killed" if ok else "SURVIVED", "rc": r.returncode,
+                "report": (viol or [r.stdout.strip().splitlines()[-1] if r.stdout.strip() else ""])[0][:300]}
+    finally:
+        shutil.rmtree(td, ignore_errors=True)
+
+
 def run_property(prop: str, jobs: int = 16, limit: int | None = None, seed: int = 0) -> dict:
     from . import mutants
     edits = list(mutants.TABLE.get(prop, []))
@@ -80,10 +114,11 @@ def run_property(prop: str, jobs: int = 16, limit: int | None = None, seed: int 
         import random
         rnd = random.Random(seed)
         edits = rnd.sample(edits, limit)
+    edits += seed_edits(prop)
     base = src_root()
     t0 = time.time()
     with ThreadPoolExecutor(max_workers=jobs) as ex:
-        results = list(ex.map(lambda e: run_one(prop, e, base), edits))
+        results = list(ex.map(lambda e: run_seed(prop, e, base) if e["kind"] == "seed" else run_one(prop, e, base), edits))
     summary = {
         "property": prop,
         "mutants": sum(1 for r in results if r["kind"] == "mutant"),
